@@ -76,10 +76,19 @@ def gen_trace(rng, tid):
             ops.append({"op": "get_group", "stream": 1, "topic": 1, "group": 1})
         elif x < 0.56:
             send_all(rng.choice([1, 2]))
+        elif x < 0.61:
+            # the server restarts: every connection is gone, the group and its stored offsets stay
+            ops.append({"op": "restart"})
+            connected.clear()
+            joined.clear()
+            decoy.clear()
+            ops.append({"op": "get_group", "stream": 1, "topic": 1, "group": 1})
         elif joined:
             c = rng.choice(sorted(joined))
-            ops.append({"op": "poll", "c": c, "stream": 1, "topic": 1, "kind": "next", "value": 0, "count": rng.choice([1, 2, 5]),
-                        "consumer": {"kind": "group", "id": 1}, "auto_commit": True})
+            # the group is addressed by number or by name; the offset is committed by the poll itself or by a store that follows it
+            manual = rng.random() < 0.3
+            ops.append({"op": "poll_store" if manual else "poll", "c": c, "stream": 1, "topic": 1, "kind": "next", "value": 0, "count": rng.choice([1, 2, 5]),
+                        "consumer": {"kind": "group", "id": rng.choice([1, 1, "g"])}, "auto_commit": True})
     ops.append({"op": "get_group", "stream": 1, "topic": 1, "group": 1})
     ops.append({"op": "get_group", "stream": 1, "topic": 2, "group": 1})       # must stay the last operation (see run)
     return {"id": tid, "cfg": {"req": 1000, "seg_size": 1000000, "cache": False}, "ops": ops, "pc": pc, "decoy": sorted(decoy)}
@@ -105,7 +114,7 @@ def analyse(t, ob):
     epoch = {}
     for i, (op, o) in enumerate(zip(t["ops"], ob["outs"])):
         k = op["op"]
-        if o.get("r") != "ok" and k not in ("poll",):
+        if o.get("r") != "ok" and k not in ("poll", "poll_store"):
             if k in ("leave_group", "join_group", "get_group", "create_partitions", "delete_partitions", "login", "get_me"):
                 return None, "op %d %s failed: %s" % (i, k, json.dumps(o))
         if k == "get_me":
@@ -120,6 +129,11 @@ def analyse(t, ob):
             pending = ("leave", cid[op["c"]])
         elif k == "disconnect":
             pending = ("leave", cid.get(op["c"], 0))
+        elif k == "restart":
+            if o.get("r") != "ok":
+                return None, "restart failed: %s" % json.dumps(o)
+            if last_listing:
+                pending = ("leave_all", last_listing[0]["id"])
         elif k == "create_partitions":
             pc += op["n"]
             pending = ("re", pc)
@@ -139,12 +153,16 @@ def analyse(t, ob):
                     gops.append(C("GJoin", pending[1], order))
                 elif pending[0] == "leave":
                     gops.append(C("GLeave", pending[1], order))
+                elif pending[0] == "leave_all":
+                    gops.append(C("GLeave", pending[1], []))
                 else:
                     gops.append(C("GReassign", pending[1], order))
                 pending = None
                 visits = {}
             last_listing = listing
-        elif k == "poll":
+        elif k in ("poll", "poll_store"):
+            if k == "poll_store" and o.get("r") == "ok" and o.get("msgs") and o.get("store") != "ok":
+                return None, "storing the group's offset after a poll failed at op %d: %s" % (i, json.dumps(o.get("store")))
             if o.get("r") != "ok":
                 return None, "poll failed at op %d: %s" % (i, json.dumps(o))
             c = cid[op["c"]]
